@@ -598,61 +598,7 @@ func c09R3(r *Report) {
 			r.Undecided("R3", key, ci.Pos(), "cannot find the loop bound that drives noteInFlight(false)")
 			continue
 		}
-		// divForm: v is x / ChunkSize; returns x split as base + const. Seen through a helper of package tor that
-		// computes the count from one of its parameters (chunkSpan(t, index, begin, length) → first, count, err):
-		// every return's value is either the constant 0 (the error returns) or the same form of the same parameter.
-		var divForm func(v ssa.Value, d int) (q *ssa.BinOp, base ssa.Value, add int64, why string)
-		divForm = func(v ssa.Value, d int) (*ssa.BinOp, ssa.Value, int64, string) {
-			v = stripIntConv(v)
-			if ex, ok := v.(*ssa.Extract); ok && d < 3 {
-				if call, ok := ex.Tuple.(*ssa.Call); ok {
-					h := call.Call.StaticCallee()
-					if h != nil && h.Blocks != nil && relPkg(h) == "tor" && !call.Call.IsInvoke() {
-						var q0 *ssa.BinOp
-						idx, add0 := -1, int64(0)
-						for _, ret := range returnsOf(h) {
-							res := retResults(ret)
-							if ex.Index >= len(res) {
-								return nil, nil, 0, "helper result missing"
-							}
-							if k, isk := constInt(res[ex.Index]); isk && k == 0 {
-								continue
-							}
-							q, base, add, why := divForm(res[ex.Index], d+1)
-							if q == nil {
-								return nil, nil, 0, why
-							}
-							prm, isP := stripIntConv(base).(*ssa.Parameter)
-							if !isP {
-								return nil, nil, 0, "the helper's count is not computed from one of its parameters"
-							}
-							k := -1
-							for i, pp := range h.Params {
-								if pp == prm {
-									k = i
-								}
-							}
-							if k < 0 || (idx >= 0 && (idx != k || add0 != add)) {
-								return nil, nil, 0, "the helper's returns compute the count differently"
-							}
-							q0, idx, add0 = q, k, add
-						}
-						if idx >= 0 && idx < len(call.Call.Args) {
-							return q0, call.Call.Args[idx], add0, ""
-						}
-					}
-				}
-			}
-			q, ok := v.(*ssa.BinOp)
-			if !ok || q.Op != token.QUO {
-				return nil, nil, 0, fmt.Sprintf("loop bound %s is not a division by the block size", exprStr(v))
-			}
-			if c, okk := constInt(q.Y); !okk || c != chunk {
-				return nil, nil, 0, fmt.Sprintf("loop bound divides by %s, not by the block size", exprStr(q.Y))
-			}
-			base, add := splitAddConst(q.X)
-			return q, base, add, ""
-		}
+		divForm := c09DivForm(chunk)
 		q, base, add, why := divForm(bound, 0)
 		if q == nil {
 			r.Undecided("R3", key, ci.Pos(), "%s", why)
@@ -690,11 +636,76 @@ func c09R3(r *Report) {
 				}
 				if init, step, isCtr := loopCounter(bo.X); isCtr && init == 0 && step == chunk {
 					ok = true
+				} else if isCtr && init == 0 && step == 1 {
+					// for i := 0; i < chunks; i++ with chunks = ceil(l / ChunkSize), possibly from a helper
+					if q, _, add, _ := c09DivForm(chunk)(bo.Y, 0); q != nil && add == chunk-1 {
+						ok = true
+					}
 				}
 			}
 			r.Check(ok, "R3", "maybeWebseed/inc-loop-step", ci.Pos(), "reserves one block per started block-size bytes of the hole (ceil)", "the reservation loop in maybeWebseed does not step by the block size from 0")
 		}
 	}
+}
+
+// c09DivForm returns the recogniser of "x / ChunkSize" forms (see c09R3).
+func c09DivForm(chunk int64) func(v ssa.Value, d int) (q *ssa.BinOp, base ssa.Value, add int64, why string) {
+	var divForm func(v ssa.Value, d int) (q *ssa.BinOp, base ssa.Value, add int64, why string)
+	// divForm: v is x / ChunkSize; returns x split as base + const. Seen through a helper of package tor that
+	// computes the count from one of its parameters (chunkSpan(t, index, begin, length) → first, count, err):
+	// every return's value is either the constant 0 (the error returns) or the same form of the same parameter.
+	divForm = func(v ssa.Value, d int) (*ssa.BinOp, ssa.Value, int64, string) {
+		v = stripIntConv(v)
+		if ex, ok := v.(*ssa.Extract); ok && d < 3 {
+			if call, ok := ex.Tuple.(*ssa.Call); ok {
+				h := call.Call.StaticCallee()
+				if h != nil && h.Blocks != nil && relPkg(h) == "tor" && !call.Call.IsInvoke() {
+					var q0 *ssa.BinOp
+					idx, add0 := -1, int64(0)
+					for _, ret := range returnsOf(h) {
+						res := retResults(ret)
+						if ex.Index >= len(res) {
+							return nil, nil, 0, "helper result missing"
+						}
+						if k, isk := constInt(res[ex.Index]); isk && k == 0 {
+							continue
+						}
+						q, base, add, why := divForm(res[ex.Index], d+1)
+						if q == nil {
+							return nil, nil, 0, why
+						}
+						prm, isP := stripIntConv(base).(*ssa.Parameter)
+						if !isP {
+							return nil, nil, 0, "the helper's count is not computed from one of its parameters"
+						}
+						k := -1
+						for i, pp := range h.Params {
+							if pp == prm {
+								k = i
+							}
+						}
+						if k < 0 || (idx >= 0 && (idx != k || add0 != add)) {
+							return nil, nil, 0, "the helper's returns compute the count differently"
+						}
+						q0, idx, add0 = q, k, add
+					}
+					if idx >= 0 && idx < len(call.Call.Args) {
+						return q0, call.Call.Args[idx], add0, ""
+					}
+				}
+			}
+		}
+		q, ok := v.(*ssa.BinOp)
+		if !ok || q.Op != token.QUO {
+			return nil, nil, 0, fmt.Sprintf("loop bound %s is not a division by the block size", exprStr(v))
+		}
+		if c, okk := constInt(q.Y); !okk || c != chunk {
+			return nil, nil, 0, fmt.Sprintf("loop bound divides by %s, not by the block size", exprStr(q.Y))
+		}
+		base, add := splitAddConst(q.X)
+		return q, base, add, ""
+	}
+	return divForm
 }
 
 func chunkSizeConst(p *Prog) (int64, bool) {
